@@ -251,7 +251,16 @@ func checkQuad(c *vkit.Collector, class string, q quad) {
 	sn := math.Sqrt(s2a)
 	if bdot(R, xP).Sign() <= 0 {
 		rep["true_direction"] = approx(xP)
-		violate(c, "Intersection.antipode", "result is on the opposite side of the sphere from the crossing point", rep)
+		// known finding "Intersection.antipode": ONLY if some edge is within 1e-6 rad of 180 degrees
+		// (|a0+a1| = 2 sin(delta/2)) and the result is the antipode of the true point up to the bound
+		ma, mb := bvadd(A0, A1), bvadd(B0, B1)
+		near := bdot(ma, ma).Cmp(bf(1e-12)) < 0 || bdot(mb, mb).Cmp(bf(1e-12)) < 0
+		if near && math.Sqrt(sin2Angle(R, xP)) <= bound*(1+margin) {
+			c.Class("known:antipode(edge within 1e-6 rad of 180 degrees)")
+			violate(c, "Intersection.antipode", "an edge is within 1e-6 rad of 180 degrees and the result is the antipode of the crossing point", rep)
+		} else {
+			violate(c, "Intersection.wrongHemisphere", "result is on the opposite side of the sphere from the crossing point", rep)
+		}
 		return
 	}
 	if stableOK && sn > maxSinSt {
